@@ -289,6 +289,7 @@ pub fn pair(args: &Args) {
     let probe = args.flag("probe");
     let small = args.flag("small");
     let force_zwr = args.flag("zwr");
+    let force_ackloss = args.flag("ackloss");
     let maxbytes = args.u64("maxbytes", 20000);
     let only = args.map.get("only").map(|x| x.parse::<usize>().unwrap());
     for run in 0..runs {
@@ -337,6 +338,19 @@ pub fn pair(args: &Args) {
             cb.rx = *rng.pick(&[1usize, 2, 3]) * seg;
             ca.tx = ca.tx.max(3 * cb.rx).min(65535);
         }
+        // acknowledgment-loss runs: data flows both ways, for a few seconds only the bare acknowledgments are lost
+        let ackloss = !aligned && !blackout && !zwr && (rng.chance(8) || force_ackloss);
+        if ackloss {
+            // several segments in flight each way, and a congestion controller that allows one segment per time-out
+            ca.cc = 1 + rng.below(2) as u8;
+            cb.cc = 1 + rng.below(2) as u8;
+            for c in [&mut ca, &mut cb] {
+                c.tx = c.tx.max(4 * seg).min(65535);
+                c.rx = c.rx.max(4 * seg).min(65535);
+                c.nagle = false;
+                c.timeout = None;
+            }
+        }
         let scripted_loss = aligned && rng.chance(50);
         DROP_NTH_DATA.with(|c| c.set(if scripted_loss { *rng.pick(&[1i64, 1, 2, kseg as i64]) } else { 0 }));
         let mut eps = [Ep::new(0, ca.clone(), Instant::from_millis(0)), Ep::new(1, cb.clone(), Instant::from_millis(0))];
@@ -367,10 +381,18 @@ pub fn pair(args: &Args) {
             ZWR.with(|c| c.set((0, 0, 0)));
             (drop_pct, dup_pct, flip_pct, jitter, adv_until)
         };
+        if ackloss {
+            let a0 = rng.range(20, 600) as i64;
+            ACKLOSS.with(|c| c.set((a0, a0 + rng.range(1500, 9000) as i64)));
+            total[0] = total[0].max(4 * seg as i64);
+            total[1] = total[1].max(4 * seg as i64);
+        } else {
+            ACKLOSS.with(|c| c.set((0, 0)));
+        }
         // a stream much longer than the smallest buffer on its way only adds steps (and would hit the step limit)
         total[0] = total[0].min(400 * (ca.tx.min(cb.rx) as i64));
         total[1] = total[1].min(400 * (cb.tx.min(ca.rx) as i64));
-        t.ev(json!({"ev":"reset","run":run,"world":"tcp_pair","seed":seed0,"pollat":pollat_mode,"args":{"small":small,"probe":probe,"zwr":force_zwr,"maxbytes":maxbytes},"zw":zwr,
+        t.ev(json!({"ev":"reset","run":run,"world":"tcp_pair","seed":seed0,"pollat":pollat_mode,"args":{"small":small,"probe":probe,"zwr":force_zwr,"ackloss":force_ackloss,"maxbytes":maxbytes},"zw":zwr,"al":ackloss,
             "v6":ca.v6,"cfg":[{"rx":ca.rx,"tx":ca.tx,"mtu":ca.mtu,"cc":ca.cc,"ad":ca.ack_delay.map(|x| x as i64).unwrap_or(-1),"nagle":ca.nagle,"ts":ca.ts,"isn":wa,"ka":ca.keep_alive.map(|x| x as i64).unwrap_or(-1),"tmo":ca.timeout.map(|x| x as i64).unwrap_or(-1),"spare":ca.spare},
                    {"rx":cb.rx,"tx":cb.tx,"mtu":cb.mtu,"cc":cb.cc,"ad":cb.ack_delay.map(|x| x as i64).unwrap_or(-1),"nagle":cb.nagle,"ts":cb.ts,"isn":wb,"ka":cb.keep_alive.map(|x| x as i64).unwrap_or(-1),"tmo":cb.timeout.map(|x| x as i64).unwrap_or(-1),"spare":cb.spare}],
             "link":{"drop":drop_pct,"dup":dup_pct,"flip":flip_pct,"delay":base_delay,"jitter":jitter,"adv_until":adv_until},"total":total}));
@@ -582,6 +604,9 @@ thread_local! {
     /// are held back `hold` ms (so that a later window update overtakes them), endpoint 0's data segments are lost
     /// with probability `drop` %, everything else is delivered in order; endpoint 1 reads all it has in one call
     static ZWR: std::cell::Cell<(i64, u64, i64)> = const { std::cell::Cell::new((0, 0, 0)) };
+    /// acknowledgment-loss runs: in [start, end) every segment without data, SYN or FIN is lost in both directions
+    /// while data gets through -- both ends receive everything and both run into retransmission time-outs
+    static ACKLOSS: std::cell::Cell<(i64, i64)> = const { std::cell::Cell::new((0, 0)) };
 }
 
 fn emit_frames(rng: &mut Rng, flight: &mut Vec<InFlight>, next_id: &mut u64, last_arrival: &mut [i64; 2], out: Vec<Vec<u8>>, from: usize, now: i64,
@@ -604,6 +629,15 @@ fn emit_frames(rng: &mut Rng, flight: &mut Vec<InFlight>, next_id: &mut u64, las
                 });
                 if left == 0 {
                     t.ev(json!({"ev":"net","fid":id,"fate":"drop","scripted":true}));
+                    continue;
+                }
+            }
+        }
+        let (k0, k1) = ACKLOSS.with(|c| c.get());
+        if now >= k0 && now < k1 {
+            if let Some(IpPkt { l4: L4::Tcp(ref seg), .. }) = parse_ip(&f) {
+                if seg.payload.is_empty() && !seg.syn && !seg.fin && !seg.rst {
+                    t.ev(json!({"ev":"net","fid":id,"fate":"drop","ackloss":true}));
                     continue;
                 }
             }
